@@ -14,7 +14,8 @@ pub struct SrcFile {
   pub text: String,
   #[serde(default)]
   pub hex: Option<String>,
-  /// normal | empty | non_utf8 | oversize | oversize_mb | big_short | big_short_mb | binary
+  /// normal | empty | non_utf8 | oversize | oversize_mb | big_short | big_short_mb | binary | symlink
+  /// (symlink: a symbolic link to `link_to`; not followed by the walker, so not an eligible file)
   pub kind: String,
   /// this path is a hard link to that other file of the world (same inode, same content)
   #[serde(default)]
@@ -94,6 +95,9 @@ pub struct CliWorld {
   /// 2 also html inside html`...`
   #[serde(default)]
   pub injections: u8,
+  /// further files that are not sources (nested `.ignore` files), path and content
+  #[serde(default)]
+  pub aux_files: Vec<(String, String)>,
 }
 
 impl CliWorld {
@@ -171,6 +175,9 @@ impl CliWorld {
     if let Some(ig) = &self.ignore_file {
       w(".ignore", ig.as_bytes());
     }
+    for (p, text) in &self.aux_files {
+      w(p, text.as_bytes());
+    }
     self.write_sources(root);
   }
 
@@ -241,6 +248,10 @@ impl CliWorld {
           let _ = std::fs::remove_dir_all(&p);
         }
         let _ = std::fs::remove_file(&p);
+        if f.kind == "symlink" {
+          std::os::unix::fs::symlink(root.join(t), &p).unwrap_or_else(|e| panic!("symlink {}: {e}", p.display()));
+          continue;
+        }
         if std::fs::hard_link(root.join(t), &p).is_err() {
           std::fs::write(&p, f.bytes()).unwrap_or_else(|e| panic!("write {}: {e}", p.display()));
         }
@@ -513,9 +524,31 @@ pub fn gen_world(rng: &mut Rng, o: &GenOpts) -> CliWorld {
       }
     }
   }
-  let ignore_file = if rng.chance(0.15) { Some("vendor/\n".to_string()) } else { None };
+  // a symbolic link to a file of the tree under a name the language filter accepts
+  if o.hard_links && rng.chance(0.1) {
+    let normal: Vec<SrcFile> = files.iter().filter(|f| f.kind == "normal" && f.link_to.is_none()).cloned().collect();
+    if !normal.is_empty() {
+      let t = rng.pick(&normal);
+      let ext = t.path.rsplit('.').next().unwrap_or("ts").to_string();
+      let dir = rng.pick(DIRS);
+      if !dir.starts_with('.') && !dir.contains("/.") {
+        files.push(SrcFile { path: format!("{dir}sym{}.{ext}", files.len()), text: t.text.clone(), hex: None, kind: "symlink".into(), link_to: Some(t.path.clone()) });
+      }
+    }
+  }
+  let mut ignore_file = if rng.chance(0.15) { Some("vendor/\n".to_string()) } else { None };
+  let mut aux_files = vec![];
+  if o.hard_links && rng.chance(0.12) {
+    // a line the glob compiler rejects: reported, and the rest of the file still applies
+    if let (Some(ig), true) = (ignore_file.as_mut(), rng.chance(0.5)) {
+      *ig = format!("{{foo\n{ig}");
+    } else {
+      let dir = *rng.pick(&["src/", "lib/", "web/", "pkg/a/", "src/deep/"]);
+      aux_files.push((format!("{dir}.ignore"), "{foo\n".to_string()));
+    }
+  }
   let _ = lang_of_ext;
-  CliWorld { files, rule_dirs, util_dirs, with_tests: o.with_tests, ignore_file, injections }
+  CliWorld { files, rule_dirs, util_dirs, with_tests: o.with_tests, ignore_file, injections, aux_files }
 }
 
 fn rng_free_keep(name: &str) -> bool {
